@@ -1532,6 +1532,31 @@ def np_empty(I, n, dtype=None, **kw):
     return SArr(a, nt, elem, 'ndarray')
 
 
+def np_iinfo(I, dtype):
+    """np.iinfo of the fixed-width integer types: their exact limits"""
+    tag = dtype.tag if isinstance(dtype, Opaque) else None
+    lim = {'int32': (-2**31, 2**31 - 1), 'int64': (-2**63, 2**63 - 1), 'uintp': (0, 2**64 - 1)}
+    if tag not in lim:
+        raise Unsupported(f"np.iinfo of {dtype!r}")
+    return Rec({'min': lim[tag][0], 'max': lim[tag][1]}, 'iinfo')
+
+
+def _det3(a):
+    return (a[0][0] * (a[1][1] * a[2][2] - a[1][2] * a[2][1]) - a[0][1] * (a[1][0] * a[2][2] - a[1][2] * a[2][0])
+            + a[0][2] * (a[1][0] * a[2][1] - a[1][1] * a[2][0]))
+
+
+def linalg_det(I, m):
+    """np.linalg.det of a 3x3 matrix: the determinant polynomial (the same term linalg_inv divides by)"""
+    rows = m.items
+    if len(rows) != 3 or any(not isinstance(r, PList) or len(r.items) != 3 for r in rows):
+        raise Unsupported("det of non 3x3")
+    a = [[realish(lift(rows[i].items[j]).t) for j in range(3)] for i in range(3)]
+    det = _det3(a)
+    I.inv_records.append({'det': det, 'op': 'det'})
+    return SV(det)
+
+
 def linalg_inv(I, m):
     """assumed contract of np.linalg.inv for 3x3 matrices: the unique inverse adj(J)/det(J) for det != 0, LinAlgError otherwise"""
     I.used_assumptions.add('inv')
@@ -1539,8 +1564,8 @@ def linalg_inv(I, m):
     if len(rows) != 3 or any(not isinstance(r, PList) or len(r.items) != 3 for r in rows):
         raise Unsupported("inv of non 3x3")
     a = [[realish(lift(rows[i].items[j]).t) for j in range(3)] for i in range(3)]
-    det = (a[0][0] * (a[1][1] * a[2][2] - a[1][2] * a[2][1]) - a[0][1] * (a[1][0] * a[2][2] - a[1][2] * a[2][0])
-           + a[0][2] * (a[1][0] * a[2][1] - a[1][1] * a[2][0]))
+    det = _det3(a)
+    I.inv_records.append({'det': det, 'op': 'inv'})
     if not I.decide(det != 0):
         raise PyRaise('LinAlgError')
 
@@ -1550,7 +1575,6 @@ def linalg_inv(I, m):
         minor = a[r[0]][c[0]] * a[r[1]][c[1]] - a[r[0]][c[1]] * a[r[1]][c[0]]
         return minor if (i + j) % 2 == 0 else -minor
     inv = [[cof(j, i) / det for j in range(3)] for i in range(3)]
-    I.inv_records.append({'det': det})
     return PList([PList([SV(inv[i][j]) for j in range(3)], 'vec') for i in range(3)], 'vec')
 
 
@@ -2016,7 +2040,7 @@ def make_libs(I):
     def L(fn):
         return Builtin(fn.__name__, lambda *a, **k: fn(I, *a, **k))
 
-    linalg = LibNS('np.linalg', {'eigvalsh': L(eigvalsh), 'inv': L(linalg_inv), 'LinAlgError': Opaque(('exc', 'LinAlgError'))})
+    linalg = LibNS('np.linalg', {'eigvalsh': L(eigvalsh), 'inv': L(linalg_inv), 'det': L(linalg_det), 'LinAlgError': Opaque(('exc', 'LinAlgError'))})
     I.inv_records = []
     np_ = LibNS('np', {
         'asarray': L(np_asarray), 'array': L(np_array), 'fabs': L(np_abs), 'abs': L(np_abs), 'absolute': L(np_abs),
@@ -2036,7 +2060,7 @@ def make_libs(I):
         'empty': L(np_empty), 'arange': L(np_arange), 'cumsum': L(np_cumsum), 'insert': L(np_insert), 'append': L(np_append),
         'concatenate': L(np_concatenate), 'searchsorted': L(np_searchsorted), 'isclose': L(np_isclose), 'all': L(np_all), 'any': L(np_any), 'sum': L(np_sum), 'dot': L(np_dot), 'trapezoid': L(np_trapezoid), 'trapz': L(np_trapezoid),
         'inf': SV(float('inf')), 'pi': SV(z3.Real('PI')), 'nan': Opaque('nan'),
-        'float64': Opaque('float64'), 'double': Opaque('float64'), 'uintp': Opaque('uintp'), 'int64': Opaque('int64'),
+        'float64': Opaque('float64'), 'double': Opaque('float64'), 'uintp': Opaque('uintp'), 'int64': Opaque('int64'), 'int32': Opaque('int32'), 'iinfo': L(np_iinfo),
         'bool_': Opaque('bool'), 'int8': Opaque('int8'),
         'ndarray': LibType('np.ndarray', None), 'number': LibType('np.number', None),
         'linalg': linalg,
